@@ -45,6 +45,7 @@ func raceNodes() error {
 		go func(g int) {
 			defer wg.Done()
 			tag := fmt.Sprintf("g%d", g)
+			var kept []*idr.Node
 			for r := 0; r < rounds; r++ {
 				root := idr.CreateNode(idr.ElementNode, tag)
 				var all []*idr.Node
@@ -71,7 +72,27 @@ func raceNodes() error {
 				if r%3 == 0 && len(all) > 2 {
 					idr.RemoveAndReleaseTree(all[len(all)-1])
 				}
-				idr.RemoveAndReleaseTree(root)
+				// most trees are given back at once (the pool serves the next round); every fourth one is kept
+				// for a while, so that the pool runs dry and new nodes have to be made while others do the same
+				if r%4 != 1 {
+					idr.RemoveAndReleaseTree(root)
+					continue
+				}
+				kept = append(kept, root)
+				if len(kept) > 40 {
+					for _, k := range kept[:20] {
+						if k.Data != tag {
+							errs <- fmt.Errorf("goroutine %d: a tree it kept now reads %q", g, k.Data)
+							return
+						}
+						if e := auditTree(k); e != "" {
+							errs <- fmt.Errorf("goroutine %d: a tree it kept: %s", g, e)
+							return
+						}
+						idr.RemoveAndReleaseTree(k)
+					}
+					kept = kept[20:]
+				}
 			}
 		}(g)
 	}
